@@ -299,7 +299,10 @@ def analyse_absent(repo: Repo, run: Run, interp) -> None:
         if x.op == "ite" and x.a[0] == T("cmp", ("not in", eid, table)):
             found = T("ite", (cond, x.a[2], x.a[1]))
             break
-    ok = found is not None and found.a[2] == hexid and sym.contains(found.a[1], T("sub", (table, eid)))
+    # on the branch where the id is in the table, table.get(id, <anything>) is table[id]
+    ok = found is not None and found.a[2] == hexid and any(
+        x == T("sub", (table, eid)) or (x.op == "call" and x.a[0] == T("attr", (table, "get")) and x.a[1][:1] == (eid,))
+        for x in sym.walk(found.a[1]))
     run.ob("R3", pk.module.name, "PyKdebugParser._format_kevent", "absent id shown as bare hex", ok,
            "" if ok else ("the name column is not `table[id] ...` when the id is in the supplied table and exactly hex(id) "
                           "otherwise" + (f": else-branch is {sym.pretty(found.a[2])[:60]}" if found is not None else "")),
@@ -314,7 +317,8 @@ def analyse_absent(repo: Repo, run: Run, interp) -> None:
     tc = T("attr", (SELF, "trace_codes"))
     name = T("sub", (tc, first_id))
     want_call = T("call", (T("sub", (T("attr", (SELF, "handlers")), name)), (SELF, evs), ()))
-    rets = [x for x in r.returns if x.kind == "return"]
+    from .. import normal
+    rets = normal.split_returns([x for x in r.returns if x.kind == "return"])
     nonnull = [x for x in rets if x.value != const(None)]
     from .c04 import dispatch_ok
     full_ok = len(nonnull) == 1 and dispatch_ok(nonnull[0].value, nonnull[0].pc, evs)
@@ -337,7 +341,7 @@ def analyse_absent(repo: Repo, run: Run, interp) -> None:
     evp = param(feed.args.args[1].arg)
     eid2 = T("attr", (evp, "eventid"))
     for p_ in rf.pops:
-        if p_.kind == "sub" and p_.base == tc:
+        if p_.kind == "sub" and p_.base == tc and p_.func.endswith(".feed"):      # feed's own lookups, not its callees'
             from ..render import norm_bool
             pcs = {norm_bool(c)[0]: (norm_bool(c)[1] == v) for c, v in p_.pc}
             okm = p_.key == eid2 and pcs.get(T("cmp", ("in", eid2, tc))) is True
